@@ -590,12 +590,14 @@ def rule_gate(ctx):
     for n, c in fires:
         ctx.ob(f"`{stmt_key(c)[:40]}` happens only when on_welcome returned None", none_fact in (mf.at(n) or ()), "join notified on the rejection path", s.loc(c))
     rej = [n for n in g.stmt_nodes() if ("is", param, ("c", None), False) in (mf.at(n) or ())]
-    ab = [n for n in rej for c in node_calls(n) if call_name(c) == "message.Abort"]
-    snd = [n for n in rej for c in node_calls(n) if norm.text(c.func) == "self._transport.send"]
+    from .common import deep_calls
+    dc = lambda n_: deep_calls(ctx, om.fn.cls, node_calls(n_))
+    ab = [n for n in rej for c in dc(n) if call_name(c) == "message.Abort"]
+    snd = [n for n in rej for c in dc(n) if norm.text(c.func) == "self._transport.send"]
     ctx.ob("a rejection by on_welcome is answered with ABORT", bool(ab) and bool(snd), "no ABORT on the rejection path", s.loc())
     ge = CFG(e.node)
-    ok = any(call_name(c) == "message.Abort" for n in ge.stmt_nodes() for c in node_calls(n)) and \
-        any(norm.text(c.func) == "self._transport.send" for n in ge.stmt_nodes() for c in node_calls(n)) and \
+    ok = any(call_name(c) == "message.Abort" for n in ge.stmt_nodes() for c in dc(n)) and \
+        any(norm.text(c.func) == "self._transport.send" for n in ge.stmt_nodes() for c in dc(n)) and \
         not any(isinstance(x, ast.Assign) and any(is_self_attr(t, "_session_id") for t in x.targets) for x in ast.walk(e.node))
     ctx.ob("an exception in on_welcome (missing / undecodable signature) is answered with ABORT and no session", ok, "error continuation does not abort", e.loc())
     # the hook's verdict is the continuation's input
